@@ -831,7 +831,7 @@ def g_xml(e):
         return 'XOther'
     q = etree.QName(e)
     atts = []
-    for k, v in sorted(e.attrib.items()):
+    for k, v in e.attrib.items():      # document order: two attributes may name the same member (its own key and its sub_name), the later one wins
         qa = etree.QName(k)
         atts.append('(%s, %s, %s)' % (gtext(qa.namespace or ''), gtext(qa.localname), gtext(v)))
     return '(XElt %s %s %s %s %s)' % (gtext(q.namespace or ''), gtext(q.localname), glist(atts),
@@ -849,7 +849,7 @@ def g_doc(e):
         raise ValueError('node kind outside the document model: %r' % e)
     q = etree.QName(e)
     atts = []
-    for k, v in sorted(e.attrib.items()):
+    for k, v in e.attrib.items():      # document order: two attributes may name the same member (its own key and its sub_name), the later one wins
         qa = etree.QName(k)
         atts.append('(%s, %s, %s)' % (gtext(qa.namespace or ''), gtext(qa.localname), gtext(v)))
     content = ['(DText %s)' % gtext(e.text)] if e.text else []
